@@ -95,7 +95,7 @@ func sliceClass(f JPFrag, n int) string {
 // structs, pointers to structs).
 func ReprClass(name string) string {
 	switch f := ReprFamily(name); f {
-	case "typed", "array", "struct", "pstruct":
+	case "typed", "array", "struct", "pstruct", "embstruct":
 		return "reflect"
 	default:
 		return f
